@@ -363,17 +363,45 @@ def qres_list(qs, answers):
                   for q, a in zip(qs, answers))
 
 
+def bits(v):
+    return '"' + ''.join('1' if x else '0' for x in v) + '"'
+
+
+SHORT_ERR = {'PyIndexError': 'eI', 'PyValueError': 'eV', 'GateDoesntExistError': 'eG'}
+
+
+def compact_answer(q, a):
+    """one answer in the compact syntax of FuncProtoCases.v (bt bf eI eV eG av an ao aN atb)"""
+    if a[0] == 'err':
+        if a[1] in SHORT_ERR:
+            return SHORT_ERR[a[1]]
+        return '(Err OutOfFuel)' if a[1].startswith('UNMODELLED') else f'(Err {a[1]})'
+    k, v = q[0], a[1]
+    if k in ('sizes', 'get_significant_inputs_of'):
+        return f'(an {nats(v)})'
+    if k == 'evaluate':
+        return f'(av {bits(v)})'
+    if k == 'find_negations_to_make_symmetric':
+        return 'aN' if v is None else f'(ao {bits(v)})'
+    if k == 'get_truth_table':
+        return f'(atb {ct.lst(bits(r) for r in v)})'
+    return 'bt' if v else 'bf'
+
+
 def term_func(case, impl):
+    """CFuncQ: the query list is `queries n m` of FuncProtoCases.v = queries(n, m) here, in this order"""
     qs = impl['queries']
+    assert qs == queries(case['n'], case['m'])
     parts = []
     for name in CLASSES:
         a = impl['answers'][name]
         if isinstance(a, tuple):
             parts.append(f'(Err {a[1]})' if not a[1].startswith('UNMODELLED') else '(Err OutOfFuel)')
         else:
-            parts.append(f'(Ok {qres_list(qs, a)})')
+            parts.append('(Ok ' + ct.lst(compact_answer(q, x) for q, x in zip(qs, a)) + ')')
     circ = ct.opt(impl['circuit'], ct.circuit)
-    return f'(CFunc {case["n"]} {tbl(case["table"])} {circ} {parts[0]} {parts[1]} {parts[2]})'
+    table = 'tb ' + ct.lst(bits(r) for r in case['table'])
+    return f'(CFuncQ {case["n"]} ({table}) {circ} {parts[0]} {parts[1]} {parts[2]})'
 
 
 # ------------------------------------------------------------------ the small kinds: implementation runs
@@ -837,6 +865,12 @@ def random_definitions(rng, table, n, count):
 
 def model_cases(rng, count):
     cases = []
+    # the smallest witnesses of a model that fixes a value which the definition names again
+    for v, w in ((False, True), (True, False)):
+        t = [[v, '*']]
+        d = [[[[False], 0, w], [[True], 0, True]]]
+        cases.append({'kind': 'tmodel', 'table': t, 'defs': d})
+        cases.append({'kind': 'pmodel', 'table': t, 'n': 1, 'out': None, 'defs': d})
     shapes = [(0, 1), (1, 1), (1, 2), (2, 1), (2, 2), (3, 1), (3, 2)]
     for c in range(count):
         n, m = shapes[c % len(shapes)]
@@ -844,16 +878,21 @@ def model_cases(rng, count):
         defs = random_definitions(rng, table, n, 6)
         cases.append({'kind': 'tmodel', 'table': table, 'defs': defs})
         cases.append({'kind': 'pmodel', 'table': table, 'n': n, 'out': rng.choice([None, m]), 'defs': defs})
-    # the smallest witnesses of a model that fixes a value which the definition names again
-    for v, w in ((False, True), (True, False)):
-        t = [[v, '*']]
-        d = [[[[False], 0, w], [[True], 0, True]]]
-        cases.append({'kind': 'tmodel', 'table': t, 'defs': d})
-        cases.append({'kind': 'pmodel', 'table': t, 'n': 1, 'out': None, 'defs': d})
     # badly shaped model tables
     for t in ([[True, '*', False]], [[]], [], [[True, '*'], ['*']]):
         cases.append({'kind': 'tmodel', 'table': t, 'defs': []})
     return cases
+
+
+def shrink(case, msg):
+    """keep one definition of a model case if that alone still fails"""
+    if case.get('kind') in ('tmodel', 'pmodel') and len(case.get('defs', [])) > 1:
+        for d in case['defs']:
+            c = dict(case, defs=[d])
+            m = oracle(c)
+            if m:
+                return c, m
+    return case, msg
 
 
 def misc_cases(rng, quick):
